@@ -48,5 +48,5 @@ CaseLines(content, variant) ==
             n |-> NatDigits(Len(content) + (IF variant = 6 THEN 1 ELSE 0))] >>])
 Emit == (EmitCases /\ phase = "names" /\ Len(names) >= 1) =>
           \A content \in Contents : \A v \in 0..7 :
-             PrintT(<<"CASE", ToJson([op |-> "verify", in |-> [path |-> cs, content |-> content, lines |-> CaseLines(content, v)]])>>)
+             PrintT(<<"CASE", ToJson([op |-> "verify", in |-> [path |-> cs, content |-> content, lines |-> CaseLines(content, v), rewrite |-> Len(content)]])>>)
 =============================================================================
